@@ -3,7 +3,7 @@
 namespace sim { struct SimMutex; }
 enum { LT_TICKET = 0, LT_SIMPLE = 1 };
 enum { GT_UNIQUE = 0, GT_SHARED = 1, GT_QS = 2 };
-enum { GO_CTOR_LOCK = 0, GO_CTOR_DEFER, GO_CTOR_ADOPT, GO_CTOR_DEFAULT, GO_LOCK, GO_UNLOCK, GO_MOVE_CTOR, GO_MOVE_ASSIGN, GO_SWAP, GO_DESTROY, GO_IS_LOCKED, GO_PROTECTS, GO_GUARD_LOCK, GO_GUARD_DEFER, GO_COPY_CTOR, GO_COPY_ASSIGN, GO_N };
+enum { GO_CTOR_LOCK = 0, GO_CTOR_DEFER, GO_CTOR_ADOPT, GO_CTOR_DEFAULT, GO_LOCK, GO_UNLOCK, GO_MOVE_CTOR, GO_MOVE_ASSIGN, GO_SWAP, GO_DESTROY, GO_IS_LOCKED, GO_PROTECTS, GO_GUARD_LOCK, GO_GUARD_DEFER, GO_COPY_CTOR, GO_COPY_ASSIGN, GO_GUARD_ADOPT, GO_SGUARD_LOCK, GO_SGUARD_DEFER, GO_SGUARD_ADOPT, GO_N };
 extern "C" {
 size_t sut_lock_size(int type);
 void sut_lock_construct(int type, void *mem, int default_init);
